@@ -2,3 +2,4 @@
 import CircuitProofs.Props.C09Tie
 import CircuitProofs.Props.C09Seq
 import CircuitProofs.Props.C09Conc
+import CircuitProofs.Props.C09Dyn
